@@ -6,8 +6,11 @@ from props.polycases import P, W, coef, poly, grp
 
 ID = "C08"
 GEN_TAGS = ["PolyGen"]
-PROOF_TARGETS = ["proofs/PolyInterpAlg.vo", "proofs/PolyInterpBase.vo", "proofs/PolyInterpProofs.vo"]
+PROOF_TARGETS = ["proofs/PolyInterpAlg.vo", "proofs/PolyInterpBase.vo", "proofs/PolyInterpProofs.vo",
+                 "proofs/PolyDeepenDiv.vo", "proofs/PolyDeepenInterp.vo", "proofs/PolyDeepenNewton.vo",
+                 "proofs/PolyDeepenFmci.vo", "proofs/PolyDeepenBary.vo"]
 PROPS_FILE = "props/C08.v"
+EXTRA_PROPS_FILES = ["props/C08b.v"]
 EXTRACT = "extract/ExtractC08.vo"
 ORACLE = ("gen_c08", "c08.ml")
 HARNESS = "c08"
@@ -242,6 +245,23 @@ def cases(tier, rng):
                 d = dom_random(rng, f, n) if n != 64 else dom_geom(rng, f, n)
                 m = " | ".join(flat(vals(rng, f, n)) for _ in range(rows))
                 add("batch-interpolate", "batch_fast_interpolate %s %d 8 | %s%s" % (f, root_of(8), flat(d), (" | " + m) if rows else ""))
+        # rows that vanish on one half of a recursion node (left half zero, right half zero, indicator rows, zero row):
+        # the half-interpolant is then the zero polynomial and products / sums of unequal stored length are combined
+        for n in (16, 17, 32, 33, 64, 100):
+            d = dom_random(rng, f, n)
+            h = n // 2
+            nz = lambda k: vals(rng, f, k)
+            zr = lambda k: [el(f, 0)] * k
+            rowsets = [
+                [zr(h) + nz(n - h), nz(h) + zr(n - h)],
+                [zr(n), zr(n - 1) + [el(f, 1)], [el(f, 1)] + zr(n - 1)],
+                [zr(h // 2) + nz(n - h // 2), zr(h) + [el(f, 5)] + zr(n - h - 1), zr(n - h // 2) + nz(h // 2)],
+            ]
+            for rs in rowsets:
+                add("batch-interpolate-zero-halves", "batch_fast_interpolate %s %d 8 | %s | %s" % (f, root_of(8), flat(d), " | ".join(flat(r) for r in rs)))
+            for r in rowsets[0] + rowsets[1]:
+                add("interpolate-zero-halves", "fast_interpolate %s %s | %s" % (f, flat(d), flat(r)))
+                add("interpolate-zero-halves", "par_fast_interpolate %s %s | %s" % (f, flat(d), flat(r)))
         d = dom_random(rng, f, 40)
         # the root / order arguments are only looked at by a debug assertion
         add("batch-interpolate-args", "batch_fast_interpolate %s 2 5 | %s | %s" % (f, flat(d), flat(vals(rng, f, 40))))
@@ -353,6 +373,16 @@ def cases(tier, rng):
             n = 2**k
             for md in mds:
                 add("modular-interpolate-large", "modular_interpolate b %d | %s | %s" % (rng.choice(offsets), flat(vals(rng, "b", n)), grp(poly(rng, "b", md))))
+    # ---------------------------------------------------------------- 7a. large codewords of low-degree polynomials
+    # (specification-only in the oracle: Horner values of the polynomial), lengths 2^10 .. 2^20: keeps the tie alive above
+    # the sizes the model can execute - the even/odd recursion of modular coset interpolation starts above 2^17
+    for logn in ((10, 13, 16, 17, 18, 19, 20) if not big else (10, 13, 16, 17, 18, 19, 20, 21, 22)):
+        for off in (7, 1, P - 1, rng.randrange(2, P)):
+            for deg in (0, 1, 2, 3, 7):
+                cs = [rng.randrange(P) for _ in range(deg + 1)]
+                for npts in ((1, 5, 99) if logn >= 17 else (5,)):
+                    pts = [0, 1, P - 1, off] + [rng.randrange(P) for _ in range(npts)]
+                    add("extrapolate-lowdeg-large", "extrap_lowdeg b %d %d | %s | %s" % (off, logn, " ".join(map(str, cs)), " ".join(map(str, pts[:npts + 1]))))
     # ---------------------------------------------------------------- 7. coset extrapolation
     for f in ("b", "x"):
         for k in (range(3, 10) if f == "b" else (3, 5)):
